@@ -289,6 +289,18 @@ func TestC07(t *testing.T) {
 			}
 		}
 	})
+	// v1 configurations in which some priority gets no share: GracefulStop must still wait for
+	// the input of such a priority (only "never early" is judged there, see C01)
+	r.Parallel(t, "v1-priority-without-share", r.Cfg.pick(600, 8000), func(t *testing.T, idx int, rng *rand.Rand) {
+		c := r.prioCase(t, genPrioScenario(rng, prioGen{Vers: []string{"v1", "v1", "v1s"}, Dividers: []string{"rate", "rate", "fair", "hashw", "toprem"}, Mode: "terminate", Starve: true}))
+		if c.res != nil && c.sc.Starved {
+			r.Count("v1_without_share.scenarios", 1)
+			r.Count("v1_without_share.hold_observations(still open)", int64(c.res.HoldChecks))
+			if c.res.HoldChecks >= 1 {
+				r.NonTrivial(jsonString(c.sc))
+			}
+		}
+	})
 	// v1: termination after AddInput / replacement (also of closed and drained channels) / RemoveInput
 	r.Parallel(t, "v1-add-remove", r.Cfg.pick(500, 15000), func(t *testing.T, idx int, rng *rand.Rand) {
 		c := r.prioCase(t, genPrioScenario(rng, prioGen{Vers: []string{"v1"}, Dividers: allDividers, Mode: "addrm"}))
